@@ -482,8 +482,10 @@ int parsec_argv_delete(int *argc, char ***argv, int start, int num_to_delete)
     tmp = (char**)realloc(*argv, sizeof(char*) * (i + 1));
     if (NULL != tmp) *argv = tmp;
 
-    /* adjust the argc */
-    (*argc) -= num_to_delete;
+    /* adjust the argc by the number of tokens actually deleted: when
+     * num_to_delete runs beyond the end of the array only count - start
+     * tokens were removed */
+    (*argc) -= (count - i);
 
     return PARSEC_SUCCESS;
 }
